@@ -23,6 +23,26 @@ from . import common
 # constraint atoms and query expressions: name -> (claripy builder, z3 builder); V = variables dict, K = constants list
 
 
+_UA = {}
+
+
+def _user_annotation(cl):
+    """one user annotation object (eliminatable, so that it constrains nothing but identity)"""
+    if "a" not in _UA:
+        class Mark(cl.Annotation):
+            eliminatable = True
+            relocatable = False
+
+            def __hash__(self):
+                return hash("Mark")
+
+            def __eq__(self, o):
+                return type(o).__name__ == "Mark"
+
+        _UA["a"] = Mark()
+    return _UA["a"]
+
+
 def _atoms():
     A = {}
 
@@ -56,6 +76,10 @@ def _atoms():
     add("z<=K0", lambda c, V, K: c.ULE(V["z"], K[0]), lambda V, K: z3.ULE(V["z"], K[0]))
     add("y==z", lambda c, V, K: V["y"] == V["z"], lambda V, K: V["y"] == V["z"])
     add("x+z==K1", lambda c, V, K: V["x"] + V["z"] == K[1], lambda V, K: V["x"] + V["z"] == K[1])
+    # constraints that carry a top-level annotation (the solver must hand back these very objects, e.g. in an unsat core)
+    add("x<=K0@", lambda c, V, K: c.ULE(V["x"], K[0]).annotate(_user_annotation(c)), lambda V, K: z3.ULE(V["x"], K[0]))
+    add("x>K2@", lambda c, V, K: c.UGT(V["x"], K[2]).annotate(_user_annotation(c)), lambda V, K: z3.UGT(V["x"], K[2]))
+    add("x!=K1@", lambda c, V, K: (V["x"] != K[1]).annotate(_user_annotation(c)), lambda V, K: V["x"] != K[1])
     add("true", lambda c, V, K: c.true(), lambda V, K: z3.BoolVal(True))
     add("false", lambda c, V, K: c.false(), lambda V, K: z3.BoolVal(False))
     add("b", lambda c, V, K: V["b"], lambda V, K: V["b"])
@@ -276,6 +300,10 @@ def run_history(cl, be, cls, hist, zV, zK, K, track=False, pickle_hook=None):
                 S[st[2]] = s.branch()
                 ref.F[st[2]] = list(ref.F[sid])
                 ref.A[st[2]] = list(ref.A.get(sid, []))
+            elif op == "add_repl":
+                # public API of the replacement solver; only the OTHER solvers of the history are queried afterwards
+                if hasattr(s, "add_replacement"):
+                    s.add_replacement(V[st[2]], K[st[3]], invalidate_cache=False)
             elif op == "pickle":
                 S[sid] = pickle.loads(pickle.dumps(s, -1))
                 if cls == "SolverHybridApprox":
@@ -494,8 +522,17 @@ def check_log(be, log, s, prop):
                 added = list(cons) + [x for c in cons if c.op == "And" for x in c.args]
                 ids = {c.hash() for c in added}
                 zadded = [be.conv(a) for a in added]
+                stripped = {}
+                for a in added:
+                    if a.annotations:
+                        stripped[a.clear_annotations().hash()] = a
                 for c in core:
                     if c.hash() in ids:
+                        continue
+                    if c.hash() in stripped:
+                        fails.append(Fail("core-annotation", f"step {i}: the core element {c!r:.60} is the added constraint with its annotations "
+                                                             f"{[type(x).__name__ for x in stripped[c.hash()].annotations]} removed - not the object that was added",
+                                          z3.Not(sat), known_key="core"))
                         continue
                     zc = be.conv(c)
                     same = z3.Or(*[fa(zc == za) for za in zadded]) if zadded else z3.BoolVal(False)
@@ -659,7 +696,7 @@ def _validate_history(hist):
                         raise KeyError(f"history mentions unknown atom/expression {a!r}")
             elif isinstance(part, str) and part not in ATOMS and part not in EXPRS and part not in (
                     "add", "sat", "eval", "batch", "min", "max", "solution", "is_true", "is_false", "simplify", "downsize", "branch", "pickle", "pickle2",
-                    "unsat_core", "combine", "merge", "split", "asat", "aeval", "amin", "amax", "asolution"):
+                    "unsat_core", "combine", "merge", "split", "asat", "aeval", "amin", "amax", "asolution", "add_repl"):
                 raise KeyError(f"history mentions unknown name {part!r}")
 
 
